@@ -12,7 +12,7 @@ PLAN = dict(
          "distinct = class keys (configuration | object kind / signer / algorithm / subject key / CA / constraints, or recipe / depth / "
          "number of certificates / outcome pattern); no case is marked trivial",
     jobs=both("c15.objects", ["avx2", "purego"], shards=(6, 14), floor=250)
-         + both("c15.chains", ["avx2", "purego"], shards=(6, 14), floor=2000)
+         + both("c15.chains", ["avx2", "purego"], shards=(6, 14), floor=3500)
          + [J("c15.sha1", configs=["sha1ok"], variant="asm", shards=(1, 2), floor=30)],
     assumptions=["crypto/x509, encoding/asn1, math/big of the toolchain are trusted (twin instance, independent parse of non-SM2 objects)",
                  "harness/ref/ec + harness/ref/sm3 (self-tested against GB/T 32918.5 / GB/T 32905 examples) are the independent SM2-SM3 verifier",
